@@ -5,6 +5,8 @@ go 1.22.0
 toolchain go1.23.5
 
 require (
+	github.com/go-asn1-ber/asn1-ber v1.5.5
+	github.com/go-ldap/ldap/v3 v3.4.6
 	github.com/hashicorp/go-hclog v1.6.2
 	github.com/jimlambrt/gldap v0.0.0-00010101000000-000000000000
 	golang.org/x/tools v0.29.0
@@ -14,8 +16,6 @@ require (
 	github.com/Azure/go-ntlmssp v0.0.0-20221128193559-754e69321358 // indirect
 	github.com/davecgh/go-spew v1.1.1 // indirect
 	github.com/fatih/color v1.16.0 // indirect
-	github.com/go-asn1-ber/asn1-ber v1.5.5 // indirect
-	github.com/go-ldap/ldap/v3 v3.4.6 // indirect
 	github.com/google/uuid v1.6.0 // indirect
 	github.com/mattn/go-colorable v0.1.13 // indirect
 	github.com/mattn/go-isatty v0.0.20 // indirect
